@@ -128,7 +128,7 @@ fn item<C: Suite>(ctx: &mut Ctx, share_kind: &str, src: &str, rep: usize) {
     };
     let other = SigningShare::<C>::new(share.to_scalar() + one::<C>());
     let mut seen = Seen { map: BTreeMap::new(), rev: BTreeMap::new() };
-    let log = rep < 2;
+    let log = rep < ctx.scale(2, 14);
 
     // commit x m
     let mut rng = make_rng(ctx, src, rep);
